@@ -416,6 +416,12 @@ func syncOnce(c Case, src *srcChain, srcDir, syncDir string, last bool, x *h.Ctx
 			os.RemoveAll(syncDir)
 		}
 	}()
+	// with honest peers only (possibly after a height claim above the chain has gone away) a node
+	// that has caught up must also leave fast sync: the child then waits for that announcement
+	waitSwitch := 0
+	if !c.tampers() || c.transientLiarOnly() {
+		waitSwitch = 12000
+	}
 	budget := 14000
 	if c.silentForever() {
 		budget = 32000
@@ -425,7 +431,7 @@ func syncOnce(c Case, src *srcChain, srcDir, syncDir string, last bool, x *h.Ctx
 	}
 	port := freePort()
 	sy, err := startChild("C13_SYNC="+syncDir, "C13_PORT="+strconv.Itoa(port), "C13_GENESIS="+filepath.Join(srcDir, "genesis.json"),
-		"C13_TARGET="+strconv.FormatInt(target, 10), "C13_BUDGET_MS="+strconv.Itoa(budget), "C13_LINGER_MS=1400")
+		"C13_TARGET="+strconv.FormatInt(target, 10), "C13_BUDGET_MS="+strconv.Itoa(budget), "C13_LINGER_MS=1400", "C13_WAIT_SWITCH_MS="+strconv.Itoa(waitSwitch))
 	if err != nil {
 		panic("harness: " + err.Error())
 	}
@@ -607,6 +613,13 @@ func syncOnce(c Case, src *srcChain, srcDir, syncDir string, last bool, x *h.Ctx
 	labelServed(label, servedKinds, c)
 	if c.transientLiarOnly() {
 		label("transient-overstated-height-claim")
+	}
+	if synced >= target && waitSwitch > 0 {
+		if rep.Switched {
+			label("switched-to-consensus-after-sync")
+		} else if fail("caught-up-node-never-leaves-fast-sync", "every peer is honest (a height claim above the chain, if any, has gone away), the syncing node holds block %d of %d, yet %d ms after that its pool routine has not announced the switch to consensus\n%s\n--- output tail ---\n%s", synced, src.H, rep.SwitchWait, ctx, tailLines(out, 15)) {
+			return
+		}
 	}
 	if synced >= target {
 		label("synced")
